@@ -351,7 +351,17 @@ def run_unit(unit_name, index_tuple=None, with_probes=True, params=None):
             if fo.get('fn') in res.degraded_fns:
                 fo['needs_witness'] = True
         res.reason = (res.reason + ' ' if res.reason else '') + 'DEGRADED: ' + '; '.join(res.degraded)
-    if with_probes and res.status in ('ok', 'failed') and not res.degraded:
+    if (not res.degraded and res.status == 'inconclusive' and res.reason.startswith('verus rejected the file')):
+        # the current text of an extracted function is outside what Verus accepts (DESIGN.md 3.7): every obligation of the
+        # unit is undecided.  The executable contract twins may still refute the contract on the real code; without a
+        # replayed failing input the verdict stays inconclusive (exit 2), never a violation.
+        props = sorted(set(p for f in asm.fns for p in f.get('props', [])))
+        res.failed = [{'name': '%s::*::rejected[verifier cannot process the current text of the unit]' % unit_name,
+                       'unit': unit_name, 'fn': '*', 'kind': 'rejected', 'clause': None, 'site': None, 'site_line': None, 'lib_site': None,
+                       'props': props, 'message': 'verus: ' + res.reason, 'rendered': res.reason, 'needs_witness': True}]
+        res.rejected = True
+        res.status = 'failed'
+    if with_probes and res.status in ('ok', 'failed') and not res.degraded and not getattr(res, 'rejected', False):
         _run_probes(res, unit, ix)
     res.wall_s = round(time.time() - t0, 2)
     return res
